@@ -1,6 +1,7 @@
 package main
 
 import (
+	"strings"
 	"sync/atomic"
 	"fmt"
 	"go/token"
@@ -185,6 +186,17 @@ func (s *State) doCall(w *Worker, t *Thread, fr *Frame, fnVal Value, args []Valu
 	}
 	if atomic.CompareAndSwapUint32(&fi.seen, 0, 1) {
 		s.eng.funcsSeen.Store(fi.name, true)
+	}
+	if s.eng.traceCalls && fn.Pkg != nil && strings.HasPrefix(fn.Pkg.Pkg.Path(), logPath) && !strings.HasPrefix(fn.Name(), "v") {
+		as := make([]string, 0, len(args))
+		for _, a := range args {
+			d := s.evalDescribe(a)
+			if len(d) > 40 {
+				d = d[:40] + "…"
+			}
+			as = append(as, d)
+		}
+		s.tracef("T%d %s%s(%s)", t.id, strings.Repeat(" ", min(len(t.frames), 12)), fn.Name(), strings.Join(as, ", "))
 	}
 	nf := s.newFrame(fn, args, env, dest)
 	nf.callSite = site
